@@ -17,8 +17,10 @@ import (
 	"time"
 
 	"github.com/saucelabs/forwarder"
+	"github.com/saucelabs/forwarder/bind"
 	"github.com/saucelabs/forwarder/log"
 	"github.com/saucelabs/forwarder/verifharness/core"
+	"github.com/spf13/pflag"
 )
 
 // The full proxy (forwarder.NewHTTPProxy with ProxyProtocolConfig) runs in a child process: its
@@ -30,14 +32,20 @@ const childEnv = "FWDCHECK_C08_PROXY_CHILD"
 
 type proxyCase struct {
 	Kind   string `json:"kind"`       // "proxy" | "proxy-crash"
-	Header string `json:"header_hex"` // PROXY header sent before the HTTP request
+	Header string `json:"header_hex"` // PROXY header sent before the HTTP request (may be several headers in a row)
+	// RHT: value given to --proxy-protocol-read-header-timeout through the flag set command/run registers
+	// ("default" = flag not given); empty = ProxyProtocolConfig{ReadHeaderTimeout: 2s} set directly
+	RHT string `json:"read_header_timeout,omitempty"`
 }
 
 type proxyResult struct {
-	XFF    string `json:"xff"`    // X-Forwarded-For values the origin saw, joined with "|"
-	Status int    `json:"status"` // status the client got (0 = none)
-	Err    string `json:"err,omitempty"`
+	XFF     string `json:"xff"`    // X-Forwarded-For values the origin saw, joined with "|"
+	Status  int    `json:"status"` // status the client got (0 = none)
+	Err     string `json:"err,omitempty"`
+	Reached bool   `json:"reached,omitempty"` // the request reached the origin
 }
+
+const childRHTEnv = "FWDCHECK_C08_PROXY_RHT"
 
 func childInit() {
 	if os.Getenv(childEnv) == "" {
@@ -74,6 +82,22 @@ func childServe(hdrs []string) {
 	cfg := forwarder.DefaultHTTPProxyConfig()
 	cfg.Address = "127.0.0.1:0"
 	cfg.ProxyProtocolConfig = &forwarder.ProxyProtocolConfig{ReadHeaderTimeout: 2 * time.Second}
+	if rht := os.Getenv(childRHTEnv); rht != "" {
+		// the way command/run does it: DefaultProxyProtocolConfig filled by the registered flags
+		ppc := forwarder.DefaultProxyProtocolConfig()
+		fs := pflag.NewFlagSet("run", pflag.ContinueOnError)
+		var enabled bool
+		bind.ProxyProtocol(fs, &enabled, ppc)
+		args := []string{"--proxy-protocol-listener"}
+		if rht != "default" {
+			args = append(args, "--proxy-protocol-read-header-timeout", rht)
+		}
+		if err := fs.Parse(args); err != nil || !enabled {
+			fmt.Fprintln(os.Stderr, "child: flags:", args, err)
+			os.Exit(3)
+		}
+		cfg.ProxyProtocolConfig = ppc
+	}
 	cfg.ProxyLocalhost = forwarder.AllowProxyLocalhost
 	p, err := forwarder.NewHTTPProxy(cfg, nil, nil, nil, log.NopLogger, nil)
 	if err != nil {
@@ -110,7 +134,7 @@ func childServe(hdrs []string) {
 		// a header that kills the accept loop does so asynchronously: leave it a moment
 		time.Sleep(30 * time.Millisecond)
 		mu.Lock()
-		out[i].XFF = seen[path]
+		out[i].XFF, out[i].Reached = seen[path]
 		mu.Unlock()
 		enc.Encode(out[i])
 	}
@@ -119,13 +143,17 @@ func childServe(hdrs []string) {
 // proxyBatch runs the headers through a fresh proxy in a child process.  When the child dies, res
 // holds the results it had reported: hdrs[len(res)] is the header it died on.
 func proxyBatch(hdrs []string) (res []proxyResult, crashed bool, diag string) {
+	return proxyBatchRHT(hdrs, "")
+}
+
+func proxyBatchRHT(hdrs []string, rht string) (res []proxyResult, crashed bool, diag string) {
 	exe, err := os.Executable()
 	if err != nil {
 		core.Fatalf("C08: os.Executable: %v", err)
 	}
 	in, _ := json.Marshal(hdrs)
 	cmd := exec.Command(exe)
-	cmd.Env = append(os.Environ(), childEnv+"=1")
+	cmd.Env = append(os.Environ(), childEnv+"=1", childRHTEnv+"="+rht)
 	cmd.Stdin = bytes.NewReader(in)
 	var stdout, stderr bytes.Buffer
 	cmd.Stdout, cmd.Stderr = &stdout, &stderr
@@ -194,23 +222,32 @@ func hostOf(sel string) (string, bool) {
 // header makes the origin see the advertised source (the socket's own for address-less headers) in
 // X-Forwarded-For, a refused one makes that connection fail.
 func evalProxy(ctx *core.Ctx, c proxyCase, r proxyResult) {
-	ctx.Case("proxy:"+c.Header, true)
+	ctx.Case("proxy:"+c.Header+"|"+c.RHT, true)
 	ctx.Count("proxy/cases")
+	if c.RHT != "" {
+		ctx.Count("proxy/read-header-timeout/" + c.RHT)
+	}
 	hx := c.Header + core.HexS(reqAfterHeader)
 	mHead, mAddrs, _ := modelParts(ctx.Model.MustAsk("C08", "read", hx))
 	spec := askSpec(ctx, hx)
 	if spec.shape != "" {
 		ctx.Count("proxy/shape/" + spec.shape)
 	}
-	impl := fmt.Sprintf("status=%d xff=%q err=%s", r.Status, r.XFF, r.Err)
+	impl := fmt.Sprintf("status=%d reached-origin=%v xff=%q err=%s", r.Status, r.Reached, r.XFF, r.Err)
 	const rel = "full proxy: origin sees the advertised source in X-Forwarded-For; a refused header fails that connection"
 	if !strings.HasPrefix(mHead, "ok") {
 		ctx.Count("proxy/model-refuses")
-		if r.Status != 0 {
-			ctx.Disagree(rel, c, impl, "no response ("+mHead+")")
+		if r.Status != 0 || r.Reached {
+			ctx.Disagree(rel, c, impl, "no response, nothing sent to the origin ("+mHead+")")
 			if spec.mustFail {
 				ctx.SpecFail(clauseText("malformed-fails"), "", c, impl, "")
+			} else if r.Reached {
+				ctx.SpecFail("a connection whose header is refused is not served: nothing behind the refused header is read as a header or as a request", "", c, impl, "")
 			}
+			return
+		}
+		if strings.Contains(r.Err, "i/o timeout") {
+			ctx.SpecFail("a refused header closes that connection (the client sees it end within 4 s)", "", c, impl, "")
 			return
 		}
 		ctx.TraceValidated()
@@ -236,7 +273,7 @@ const goodHeader = "PROXY TCP4 1.2.3.4 5.6.7.8 1000 2000\r\n"
 
 // checkProxy sends one header (and then a well-formed one) to a fresh full proxy.
 func checkProxy(ctx *core.Ctx, c proxyCase) {
-	res, crashed, diag := proxyBatch([]string{c.Header, core.HexS(goodHeader)})
+	res, crashed, diag := proxyBatchRHT([]string{c.Header, core.HexS(goodHeader)}, c.RHT)
 	if crashed {
 		ctx.Case("proxy:"+c.Header, true)
 		ctx.Crash("no header, however unusual, crashes the process (full proxy: accept loop)", "", c, diag)
@@ -330,7 +367,58 @@ var proxyHeaders = []string{
 	"\r\n\r\n\x00\r\nQUIT\n\x22\x11\x00\x00",         // command nibble 2
 }
 
+// runProxySticky: through the full proxy, for several settings of --proxy-protocol-read-header-timeout
+// (0 = no limit among them): a refused header followed by a well-formed header and a request.  martian
+// asks RemoteAddr for its log line and then peeks the request: the connection must end unserved, nothing
+// reaches the origin, and the next connection is served; well-formed headers are served as advertised.
+func runProxySticky(ctx *core.Ctx) {
+	bad := []string{"GET / HTTP/1.", "PROXY TCP4 NOT-AN-IP 192.168.1.1 22 2345\r\n", "PROXY TCP4 1.2.3.4 5.6.7.8 1000\r\n", "PROXY TCP5 1.2.3.4 5.6.7.8 1 2\r\n",
+		"\r\n\r\n\x00\r\nQUIT\n\x21\x31\x00\x00", "\r\n\r\n\x00\r\nQUIT\n\x21\x11\x00\x00", "\r\n\r\n\x00\r\nQUIT\n\x11\x11\x00\x00", "\r\n\r\n\x00\r\nQUIT\n\x21\x11\x00\x04\x01\x02\x03\x04"}
+	good := []string{"PROXY TCP4 9.9.9.9 8.8.8.8 99 88\r\n", "PROXY TCP6 2001:db8::9 2001:db8::8 99 88\r\n",
+		"\r\n\r\n\x00\r\nQUIT\n\x21\x11\x00\x0c\x09\x09\x09\x09\x08\x08\x08\x08\x00\x63\x00\x58"}
+	rhts := []string{"0", "0s", "200ms", "default"}
+	n := 0
+	parallel(rhts, len(rhts), func(rht string) {
+		var cs []proxyCase
+		for _, b := range bad {
+			for _, g := range good {
+				cs = append(cs, proxyCase{Kind: "proxy", Header: core.HexS(b + g), RHT: rht})
+			}
+			cs = append(cs, proxyCase{Kind: "proxy", Header: core.HexS(b), RHT: rht})
+		}
+		for _, g := range good {
+			cs = append(cs, proxyCase{Kind: "proxy", Header: core.HexS(g), RHT: rht})
+		}
+		n = len(cs)
+		hdrs := make([]string, 0, len(cs)+1)
+		for _, c := range cs {
+			hdrs = append(hdrs, c.Header)
+		}
+		hdrs = append(hdrs, core.HexS(goodHeader))
+		res, crashed, diag := proxyBatchRHT(hdrs, rht)
+		for i := 0; i < len(res) && i < len(cs); i++ {
+			evalProxy(ctx, cs[i], res[i])
+		}
+		ctx.Case("proxy-liveness:rht="+rht, true)
+		ctx.Count("proxy/liveness")
+		if crashed {
+			ctx.Crash("no header, however unusual, crashes the process (full proxy)", "", cs, diag)
+			return
+		}
+		if last := res[len(res)-1]; last.Status != 200 || last.XFF != "1.2.3.4" {
+			ctx.SpecFail("a header makes only its own connection fail (the next connection is served)", "", cs, fmt.Sprintf("connection after the batch: %+v", last), "")
+			return
+		}
+		ctx.TraceValidated()
+	})
+	ctx.Extra("full_proxy_header_sequences", fmt.Sprintf("%d streams x --proxy-protocol-read-header-timeout in %v (parsed by the flag set command/run registers) through forwarder.NewHTTPProxy: refused header alone, refused header + well-formed header + request (must end unserved, origin not reached), well-formed header", n, rhts))
+}
+
 func runProxyCases(ctx *core.Ctx) {
+	var sticky sync.WaitGroup
+	sticky.Add(1)
+	go func() { defer sticky.Done(); runProxySticky(ctx) }()
+	defer sticky.Wait()
 	var cases []proxyCase
 	for _, h := range proxyHeaders {
 		cases = append(cases, proxyCase{Kind: "proxy", Header: core.HexS(h)})
